@@ -1,11 +1,111 @@
 package main
 
-import "verif/harness/internal/hx"
+import (
+	"bytes"
+	"encoding/json"
+	"io"
+	"os"
+	"os/exec"
+	"path/filepath"
+	"strings"
 
+	"verif/harness/internal/hx"
+)
+
+// The drivers host the real Adaptation in-process.  A panic (or a Go runtime
+// "fatal error") inside containerd/nri would take the driver down and be
+// reported as a failure of the harness; C06/C07/C19 however say the runtime
+// process does not crash.  So the binary runs itself as a child and, when the
+// child dies with a goroutine trace whose crashing goroutine is inside an nri
+// package, writes a stats.json that reports the crash as a failure of the
+// implementation (with the trace as the replay).
 func main() {
+	if os.Getenv("VERIF_DISPATCH_CHILD") == "" {
+		os.Exit(supervise())
+	}
 	hx.Main(map[string]func(*hx.Ctx) error{
 		"events":  driveEvents,
 		"faults":  driveFaults,
 		"updates": driveUpdates,
 	})
+}
+
+func supervise() int {
+	cmd := exec.Command(os.Args[0], os.Args[1:]...)
+	cmd.Env = append(os.Environ(), "VERIF_DISPATCH_CHILD=1")
+	var errb bytes.Buffer
+	cmd.Stdout = os.Stdout
+	cmd.Stderr = io.MultiWriter(os.Stderr, &errb)
+	err := cmd.Run()
+	if err == nil {
+		return 0
+	}
+	rc := 2
+	if ee, ok := err.(*exec.ExitError); ok {
+		rc = ee.ExitCode()
+	}
+	trace := errb.String()
+	head, inNRI := crashHead(trace)
+	if !inNRI {
+		return rc
+	}
+	out, driver := "", ""
+	for i, a := range os.Args {
+		if (a == "-out" || a == "--out") && i+1 < len(os.Args) {
+			out = os.Args[i+1]
+		}
+	}
+	if n := len(os.Args); n > 0 {
+		driver = os.Args[n-1]
+	}
+	if out == "" {
+		return rc
+	}
+	if len(trace) > 6000 {
+		trace = trace[:6000]
+	}
+	st := hx.Stats{
+		Evaluations: 1, DistinctNontrivial: 1,
+		Rule:    "the driver process hosting the real Adaptation crashed inside containerd/nri",
+		Samples: []interface{}{},
+		ImplFailures: []hx.ImplFailure{{Stream: driver,
+			What: "the process hosting the Adaptation crashed inside containerd/nri: " + head,
+			Case: map[string]interface{}{"driver": driver, "args": os.Args[1:], "trace": trace}}},
+	}
+	js, jerr := json.MarshalIndent(&st, "", " ")
+	if jerr != nil || os.WriteFile(filepath.Join(out, "stats.json"), js, 0o644) != nil {
+		return rc
+	}
+	return 0
+}
+
+// crashHead finds "panic: …" / "fatal error: …" in a Go crash dump and reports
+// whether the first goroutine printed after it (the crashing one) has a frame
+// of an nri package.
+func crashHead(trace string) (string, bool) {
+	i := strings.Index(trace, "\npanic: ")
+	if j := strings.Index(trace, "\nfatal error: "); j >= 0 && (i < 0 || j < i) {
+		i = j
+	}
+	if i < 0 {
+		if strings.HasPrefix(trace, "panic: ") || strings.HasPrefix(trace, "fatal error: ") {
+			i = -1
+		} else {
+			return "", false
+		}
+	}
+	rest := trace[i+1:]
+	head := rest
+	if k := strings.Index(head, "\n"); k >= 0 {
+		head = head[:k]
+	}
+	g := strings.Index(rest, "\ngoroutine ")
+	if g < 0 {
+		return head, false
+	}
+	first := rest[g+1:]
+	if k := strings.Index(first, "\n\n"); k >= 0 {
+		first = first[:k]
+	}
+	return head, strings.Contains(first, "github.com/containerd/nri/pkg/")
 }
